@@ -143,6 +143,32 @@ fn snippet(ch: &mut Choices, k: usize, uid: usize, top: bool, feats: &mut Vec<&'
             f("push-nth");
             format!("{} [ {} ] push -1 nth", a, b)
         }
+        27 => {
+            // a store of a value that is equal? to the old one but carries other tags
+            f("store-equal-value-other-tags");
+            if top {
+                format!("{} ^{{ 1 \"k\" ^}} var tv{u} {} ^{{ 2 \"k\" ^}} ! tv{u} tv{u} \"k\" get-tag tv{u} ^hex ! tv{u} tv{u} print", 250 + a, 250 + a, u = uid)
+            } else {
+                format!("{} ^{{ 1 \"k\" ^}} dup ^hex swap drop print", 250 + a)
+            }
+        }
+        28 => {
+            f("insert-tag-store");
+            if top {
+                format!("[ {} {} ] var tw{u} tw{u} \"kg\" \"unit\" insert-tag ! tw{u} tw{u} \"unit\" get-tag tw{u} length", a, b, u = uid)
+            } else {
+                format!("[ {} ] \"kg\" \"unit\" insert-tag \"unit\" get-tag drop", a)
+            }
+        }
+        29 => {
+            // equal bit-strings with different windows stored into the cursor variables
+            f("cursor-equal-windows");
+            "|aa aa 05 00 05| open-bitstr 8 bits 8 bits open-bitstr open-bitstr close-bitstr close-bitstr u8 drop u8 drop u8 drop close-bitstr".to_string()
+        }
+        30 => {
+            f("over-flood");
+            format!("{} {} over over over over + + + + +", a, b)
+        }
         25 => {
             f("gap-local-branch");
             format!(": wg{u} {} if 10 local a a drop then {} local b b ; wg{u}", if a % 2 == 0 { "false" } else { "true" }, b, u = uid)
@@ -158,7 +184,7 @@ fn snippet(ch: &mut Choices, k: usize, uid: usize, top: bool, feats: &mut Vec<&'
     }
 }
 
-const N_SNIPPETS: usize = 28;
+const N_SNIPPETS: usize = 32;
 
 const FAILING: &[&str] = &[
     "1 0 /",
